@@ -341,6 +341,104 @@ def gen_logrule_class(fd, clsname, prefix, out):
         out.append('(* structural facts about rule() checked by the translator:\n   cache key = (make_exact step_ratio, parity, num_terms) = arguments of _fd_matrix; value = pinv of that matrix;\n   result = (+/-) row rule_index, negated iff _flip_fd_rule *)\nDefinition rule_key_is_fd_matrix_args : bool := true.\n')
     return props
 
+def _calls(node, attr):
+    """all Call nodes `self.<attr>(...)` / `<attr>(...)` inside node, in source order"""
+    res = []
+    for n in ast.walk(node):
+        if isinstance(n, ast.Call):
+            f = n.func
+            if (isinstance(f, ast.Attribute) and f.attr == attr) or (isinstance(f, ast.Name) and f.id == attr):
+                res.append(n)
+    return sorted(res, key=lambda n: (n.lineno, n.col_offset))
+
+def _first_line(node, pred):
+    ls = [n.lineno for n in ast.walk(node) if pred(n)]
+    return min(ls) if ls else None
+
+def gen_guards():
+    """Where misuse is detected (C11): structural facts about core.py / limits.py / fornberg.py guards."""
+    out = ['(* ---- guards (C11): structural facts read off the AST; a changed shape aborts translation ---- *)']
+    core = ast.parse(open(SRC + 'core.py').read().replace('\r\n', '\n'))
+    der = get_class(core, 'Derivative'); jac = get_class(core, 'Jacobian')
+    # _raise_error_if_any_is_complex: asserts on x and on f_x
+    g = get_func(der, '_raise_error_if_any_is_complex')
+    conds = [ast.unparse(c.args[0]) for c in _calls(g, '_assert')]
+    out.append('Definition guard_checks_x : bool := %s.' % ('true' if 'not np.any(np.iscomplex(x))' in conds else 'false'))
+    out.append('Definition guard_checks_fx : bool := %s.' % ('true' if 'not np.any(np.iscomplex(f_x))' in conds else 'false'))
+    # _eval_first: for complex methods f(x) is evaluated and the guard is called before returning
+    ef = get_func(der, '_eval_first')
+    first = ef.body[0]
+    ok = (isinstance(first, ast.If) and ast.unparse(first.test) in ("self.method in ['complex', 'multicomplex']", "self.method in ('complex', 'multicomplex')")
+          and _calls(first, '_raise_error_if_any_is_complex') and isinstance(first.body[-1], ast.Return))
+    out.append('Definition eval_first_guards_complex_methods : bool := %s.' % ('true' if ok else 'false'))
+    def nonzero_guard(cls):
+        f = get_func(cls, '_derivative_nonzero_order')
+        # line of the first stencil evaluation: the list comprehension calling diff(...)
+        stl = _first_line(f, lambda n: isinstance(n, ast.ListComp) and any(isinstance(c, ast.Call) and getattr(c.func, 'id', '') == 'diff' for c in ast.walk(n)))
+        if stl is None: fail(f, '_derivative_nonzero_order: no stencil evaluation found')
+        gl = [n.lineno for n in _calls(f, '_eval_first')]
+        direct = []
+        for n in ast.walk(f):   # `if self.method in [complex, multicomplex]: self._raise_error_if_any_is_complex(...)`
+            if isinstance(n, ast.If) and 'complex' in ast.unparse(n.test) and 'multicomplex' in ast.unparse(n.test) and _calls(n, '_raise_error_if_any_is_complex'):
+                direct.append(n.lineno)
+        return any(l < stl for l in gl + direct)
+    out.append('Definition derivative_nonzero_order_guards : bool := %s.' % ('true' if nonzero_guard(der) else 'false'))
+    out.append('Definition jacobian_nonzero_order_guards : bool := %s.' % ('true' if nonzero_guard(jac) else 'false'))
+    # which implementation each class inherits (MRO: own definition, else the base's)
+    bases = {}
+    for c in core.body:
+        if isinstance(c, ast.ClassDef):
+            bases[c.name] = [ast.unparse(b) for b in c.bases]
+    def owner(name):
+        c = name
+        while True:
+            cls = get_class(core, c)
+            if any(isinstance(n, ast.FunctionDef) and n.name == '_derivative_nonzero_order' for n in cls.body): return c
+            if not bases.get(c) or bases[c][0] not in bases: fail(cls, 'MRO of %s' % name)
+            c = bases[c][0]
+    for cname in ('Derivative', 'Jacobian', 'Gradient', 'Hessdiag', 'Hessian'):
+        o = owner(cname)
+        if o not in ('Derivative', 'Jacobian'): raise Unsupported('unexpected owner %s of _derivative_nonzero_order for %s' % (o, cname))
+        out.append('Definition %s_uses_jacobian_path : bool := %s.' % (cname.lower(), 'true' if o == 'Jacobian' else 'false'))
+    # directionaldiff: size guard before the Derivative call
+    dd = get_func(core, 'directionaldiff')
+    conds = [ast.unparse(c.args[0]) for c in _calls(dd, '_assert')]
+    out.append('Definition dirdiff_size_guard : bool := %s.' % ('true' if 'x0.size == vec.size' in conds else 'false'))
+    # _vstack size guards
+    fd = ast.parse(open(SRC + 'finite_difference.py').read())
+    for cname, gname in (('LogRule', 'logrule_vstack_size_guard'), ('LogJacobianRule', 'jacobian_vstack_size_guard')):
+        f = get_func(get_class(fd, cname), '_vstack')
+        conds = [ast.unparse(c.args[0]) for c in _calls(f, '_assert')]
+        out.append('Definition %s : bool := %s.' % (gname, 'true' if 'f_del.size == h.size' in conds else 'false'))
+    lim = ast.parse(open(SRC + 'limits.py').read())
+    f = get_func(get_class(lim, '_Limit'), '_vstack')
+    conds = [ast.unparse(c.args[0]) for c in _calls(f, '_assert')]
+    out.append('Definition limit_vstack_size_guard : bool := %s.' % ('true' if 'f_del.size == h.size' in conds else 'false'))
+    # Residue: order must exceed pole_order; CStepGenerator: path in [spiral, radial], checked in the constructor
+    res = get_func(get_class(lim, 'Residue'), '__init__')
+    conds = [ast.unparse(c.args[0]) for c in _calls(res, '_assert')]
+    out.append('Definition residue_order_guard (pole_order order : Z) : bool := %s.' % ('(pole_order <? order)' if 'pole_order < order' in conds else 'true'))
+    dflt = [ast.unparse(n) for n in ast.walk(res) if isinstance(n, ast.Assign) and ast.unparse(n.targets[0]) == 'order']
+    if dflt != ['order = pole_order + 2']: raise Unsupported('Residue default order changed: %r' % dflt)
+    out.append('Definition residue_default_order (pole_order : Z) : Z := pole_order + 2.')
+    cs = get_class(lim, 'CStepGenerator')
+    cp = get_func(cs, '_check_path')
+    conds = [ast.unparse(c.args[0]) for c in _calls(cp, '_assert')]
+    init = get_func(cs, '__init__')
+    called = bool(_calls(init, '_check_path'))
+    out.append('Definition path_guard_in_constructor : bool := %s.' % ('true' if called and conds == ["self.path in ['spiral', 'radial']"] else 'false'))
+    # Limit sign dictionary
+    lm = get_func(get_class(lim, 'Limit'), '_lim')
+    src = ast.unparse(lm)
+    out.append('Definition limit_sign_dict_ok : bool := %s.' % ('true' if "sign = dict(forward=1, above=1, backward=-1, below=-1)[self.method]" in src and 'steps = [sign * step for step in self.step(z)]' in src else 'false'))
+    # fornberg guards
+    fb = ast.parse(open(SRC + 'fornberg.py').read())
+    c1 = [ast.unparse(c.args[0]) for c in _calls(get_func(fb, 'fd_weights_all'), '_assert')]
+    c2 = [ast.unparse(c.args[0]) for c in _calls(get_func(fb, 'fd_derivative'), '_assert')]
+    out.append('Definition fdw_guard (n m : Z) : bool := %s.' % ('(n <? m)' if c1 == ['n < m'] else 'true'))
+    out.append('Definition fdd_guard (n num_x len_fx : Z) : bool := %s.' % ('((n <? num_x) && (num_x =? len_fx))' if c2 == ['n < num_x', 'num_x == len(fx)'] else 'true'))
+    return '\n'.join(out) + '\n'
+
 def float_const_Q(node):
     """decimal literal -> exact rational text"""
     from fractions import Fraction
@@ -438,17 +536,28 @@ def main():
     out.append('Definition max_gen_num_extrap_default : Z := %s.\n' % dflt['num_extrap'])
     return '\n'.join(out)
 
-def write(out_path=OUT):
-    text = main()
-    old = open(out_path).read() if os.path.exists(out_path) else None
-    if old != text:
-        os.makedirs(os.path.dirname(out_path), exist_ok=True)
-        with open(out_path, 'w') as f: f.write(text)
-        return True
-    return False
+GUARDS_HEADER = """(* GENERATED by tools/ndt_translate.py from /repo/src/numdifftools -- do not edit *)
+From Coq Require Import ZArith Bool List String.
+Import ListNotations.
+Open Scope Z_scope.
+"""
+def outputs():
+    """file name (under coq/Gen) -> text.  Separate files so that a change in one area does not rebuild the others."""
+    return {'Spec.v': main(), 'Guards.v': GUARDS_HEADER + gen_guards()}
+def write(out_dir=os.path.dirname(OUT)):
+    changed = False
+    os.makedirs(out_dir, exist_ok=True)
+    for name, text in outputs().items():
+        path = os.path.join(out_dir, name)
+        old = open(path).read() if os.path.exists(path) else None
+        if old != text:
+            with open(path, 'w') as f: f.write(text)
+            changed = True
+    return changed
 if __name__ == '__main__':
     try:
-        if len(sys.argv) > 1 and sys.argv[1] == '-': sys.stdout.write(main())
+        if len(sys.argv) > 1 and sys.argv[1] == '-':
+            for name, text in outputs().items(): sys.stdout.write('(* ==== %s ==== *)\n' % name + text)
         else: print('changed' if write() else 'unchanged')
     except (Unsupported, SyntaxError, OSError) as e:
         sys.stderr.write('TRANSLATION FAILED: %s\n' % e); sys.exit(2)
